@@ -268,7 +268,7 @@ theorem execute_error_argument (w : World) (a : Authn) (r : Req) (e : Err) (hw :
     rcases extract_cases ss r hne with ⟨v, hv, hc⟩ | ⟨e', he', hc, hk⟩
     · simp only [hv] at h
       simp only [hc]
-      cases hp : w.parses.contains v with
+      cases hp : w.parsesJWT v with
       | true =>
         simp only [hp, ↓reduceIte] at h
         simp only [Bool.not_true]
@@ -323,7 +323,7 @@ theorem execute_ok_usable (w : World) (a : Authn) (r : Req) (s : String) (ha : a
     rcases extract_cases ss r hne with ⟨v, hv, hc⟩ | ⟨e', he', hc, hk⟩
     · simp only [hv] at h
       simp only [hc]
-      cases hp : w.parses.contains v with
+      cases hp : w.parsesJWT v with
       | true => rfl
       | false => simp only [hp, Bool.false_eq_true, ↓reduceIte] at h; cases h
     · simp [he'] at h
@@ -563,6 +563,9 @@ theorem answer_trace_ne_nil (w : World) (r : Req) (chain : List Authn) (h : chai
   | nil => exact absurd rfl h
   | cons a as => simp [answer_trace_cons]
 
+@[simp] theorem sameOutcome_obsOf (x : Except Err String) : sameOutcome x (obsOf x) = true := by
+  cases x <;> simp [sameOutcome, obsOf]
+
 /-- the model's own answer satisfies the property as `judge` states it -/
 theorem judge_answer (w : World) (r : Req) (chain : List Authn) (hw : w.wf = true)
     (hc : chain.all Authn.wf = true) :
@@ -578,14 +581,14 @@ theorem judge_answer (w : World) (r : Req) (chain : List Authn) (hw : w.wf = tru
     cases hx : a.execute w r with
     | ok s =>
       have hg : (a.step w r).goesOn = false := by simp [Authn.step, Step.goesOn, hx]
-      simp [hg, judge, obsOf, obsOfResult, resultOf, hx]
+      simp [hg, judge, obsOf, obsOfResult, resultOf, hx, sameOutcome]
     | error e =>
       by_cases hp : passesOn w r a = true
       · have hg : (a.step w r).goesOn = true := by rw [hgo]; exact hp
         have hpo : (!usable w a r || a.fallback) = true := by
           simp only [passesOn, Bool.and_eq_true] at hp; exact hp.2
         cases as with
-        | nil => simp [hg, judge, answer, obsOf, obsOfResult, resultOf, hx]
+        | nil => simp [hg, judge, answer, obsOf, obsOfResult, resultOf, hx, sameOutcome]
         | cons b bs =>
           have hne := answer_trace_ne_nil w r (b :: bs) (by simp)
           simp only [hg, ↓reduceIte, ne_eq, reduceCtorEq, not_false_eq_true, and_self, obsOf]
@@ -593,10 +596,12 @@ theorem judge_answer (w : World) (r : Req) (chain : List Authn) (hw : w.wf = tru
           | nil => exact absurd ht hne
           | cons x xs =>
             rw [ht] at ih
-            simp only [judge, BEq.rfl, Bool.true_and, hpo]
+            have hso : sameOutcome (a.execute w r) (Obs.err e.kinds) = true := by rw [hx]; rfl
+            rw [judge]
+            simp only [BEq.rfl, Bool.true_and, hpo, hso]
             exact ih
       · have hg : (a.step w r).goesOn = false := by rw [hgo]; simpa using hp
         have hdec : (usable w a r && !a.fallback) = true := by
           simp only [passesOn, fails, hx, Bool.true_and, Bool.not_eq_true] at hp
           cases hu : usable w a r <;> cases hf : a.fallback <;> simp_all
-        simp [hg, judge, obsOf, obsOfResult, resultOf, hx, hdec]
+        simp [hg, judge, obsOf, obsOfResult, resultOf, hx, hdec, sameOutcome]
